@@ -93,8 +93,8 @@ type tctx struct {
 	sc    map[text.StrutLayoutKey][2]pr.Float
 }
 
-func (t *tctx) Fonts() text.FontConfiguration                         { return t.fonts }
-func (t *tctx) HyphenCache() map[text.HyphenDictKey]hyphen.Hyphener   { return t.hc }
+func (t *tctx) Fonts() text.FontConfiguration                          { return t.fonts }
+func (t *tctx) HyphenCache() map[text.HyphenDictKey]hyphen.Hyphener    { return t.hc }
 func (t *tctx) StrutLayoutsCache() map[text.StrutLayoutKey][2]pr.Float { return t.sc }
 
 var (
